@@ -299,6 +299,8 @@ class PythonTypesBackend(CodeBackend):
         with self.indent():
             for param in annotation_type.params:
                 self.emit('self._{0} = {0}'.format(fmt_var(param.name, True)))
+            if not annotation_type.params:
+                self.emit('pass')
         self.emit()
 
     def _generate_annotation_type_class_properties(self, ns, annotation_type):
